@@ -4,7 +4,13 @@ import random
 from pyvc.bounded import Harness, Failure
 from spec import pddl_sem as PS, gen as G, repo_api as RA, sexp as SX, views as V
 
-CONTRACTS = {}
+CONTRACTS = {
+    "lisp_parsers.problem_parser:ProblemParser.parse_domain_name": dict(
+        prop="C05", params={"self": ("ref", "ProblemParser"), "domain_name": "str"}, returns="none", allocates=False,
+        # a problem that names a different domain is rejected with an error - and only then
+        ensures=["domain_name == self.domain.name"],
+        raises={"ValueError": "domain_name != self.domain.name"}, must_raise=["domain_name != self.domain.name"], modifies=[]),
+}
 LEVEL = "other"
 EXPLANATION = ("bounded stand-in: for generated problems over the generator domain the parsed Problem's view (objects with types, initial "
                "facts, fluent values, goal literals, numeric goals) equals an independent reading of the text, and every single-point "
@@ -12,11 +18,15 @@ EXPLANATION = ("bounded stand-in: for generated problems over the generator doma
 TRUSTED = ["spec/pddl_sem.py:sem_problem (independent reading incl. the type check against the declared type tree)"]
 ASSUMPTIONS = ["bounded: object-list shapes, fact/fluent/goal lists and corruptions enumerated in contracts/c05.py", "float(token) trusted for numerals"]
 
-DOMAIN = G.domain_text([("act", "?x - a ?y - a", "(and (p ?x))", "(and (q ?y))")], with_const=True)
+DOMAIN = G.domain_text([("act", "?x - a ?y - a", "(and (p ?x))", "(and (q ?y))")], with_const=True).replace(
+    "(:predicates ", "(:predicates (bt ?x - a ?y - a ?z - b) ").replace("(:functions ", "(:functions (ft ?x - a ?y - a ?z - b) ")
 OBJECT_LISTS = ["o1 - a o2 - b", "o1 o3 - a o2 - b", "o2 - b o1 - a o4", "o1 o2", "o1 - a", "", "o1 - a (:private o5 - b o6 - a) o2 - b",
                 "o1 - object o2 - b"]
 INITS = [[], ["(p o1)"], ["(p o1)", "(q o2)", "(r o1 o2)", "(g)"], ["(r o1 o1)"], ["(p k)", "(r k o1)"], ["(s o2)"],
          ["(= (f o1) 3)", "(= (c) 0)"], ["(= (f o2) -2.5)", "(= (c) 1e2)", "(p o2)"], ["(= (f k) 0.125)"], ["(= (c) 7)", "(g)"],
+         ["(= (f o1) 1234567.5)", "(= (c) 0.0001234567)", "(= (f o2) -98765.4321)"],
+         ["(bt o1 o1 o2)", "(bt o2 o2 o2)"], ["(bt o1 o1 o1)"], ["(bt o1 o2 o2)", "(bt o2 o1 o2)"], ["(bt o2 o2 o1)"],
+         ["(= (ft o1 o1 o2) 1)"], ["(= (ft o1 o1 o1) 1)"], ["(= (ft o2 o2 o1) 1)"],
          ["(= (d o1 o1) 4)", "(= (d o1 o2) 1)"], ["(= (d o2 o2) 2)", "(= (d o2 o1) 3)", "(= (d o1 o1) 5)"]]
 GOALS = [[], ["(p o1)"], ["(q o2)", "(g)"], ["(>= (f o1) 2)"], ["(p o1)", "(<= (+ (f o1) (c)) 10)"], ["(= (c) 3)"], ["(r o1 o1)"], ["(>= (d o1 o1) 3)"], ["(< (d o1 o2) (d o2 o1))"]]
 CORRUPT_INIT = ["(zz o1)", "(p)", "(p o1 o2)", "(p nobody)", "(s o1)", "(= (zz o1) 1)", "(= (f) 1)", "(= (f o1 o2) 1)", "(= (f nobody) 1)",
